@@ -68,6 +68,7 @@ pub fn main_campaign() -> SimCampaign {
             w_disconnect: 2,
             w_droplink: 2,
             w_reconnect: 4,
+            p_pub_alias: 10,
             ..GenCfg::default()
         },
         flags: Flags {
